@@ -875,10 +875,15 @@ def gen_dag_model(draw, ncells=(4, 7), items=True, uncached=True, none_points=Fa
             if handled and draw(st.integers(0, 3)) == 0:
                 call = ["try", call, ["lit", draw(small_int())]]     # the formula handles a callee's failure itself
             terms.append(call)
-        terms.append(draw(st.sampled_from([
+        rd = draw(st.sampled_from([
             ["lit", draw(small_int())], ["name", "g0"],
             ["attr", ["attr", ["name", "_model"], "S0"], "r0"],       # reference read by attribute path
-            ["attr", ["name", "_model"], "g0"]])))
+            ["attr", ["name", "_model"], "g0"]]))
+        if rd[0] != "lit" and draw(st.integers(0, 2)) == 0:
+            # the reference is read inside doubly nested code (a generator inside a generator / inside a lambda)
+            rd = draw(st.sampled_from([["sum", "i", 1, ["sum", "j", 1, rd]], ["lam", "z", ["sum", "i", 1, rd], ["lit", 0]],
+                                       ["sum", "i", 1, ["lam", "z", rd, ["lit", 0]]]]))
+        terms.append(rd)
         if draw(st.booleans()):
             # put the attribute read first so that it happens before the calls
             terms.insert(1, terms.pop())
